@@ -195,6 +195,10 @@ func runProxy(rec *Rec, w *histWorld, sc *ProxyScenario, rnd *rand.Rand) {
 		"replymeta": sc.ReplyMeta, "body": sc.Body, "failure": sc.Failure, "expect": sc.Expect, "conc": sc.Conc})
 	w.ensureFwd()
 	if sc.Conc {
+		w.mu.Lock()
+		w.fwdNoise = true
+		w.mu.Unlock()
+		defer func() { w.mu.Lock(); w.fwdNoise = false; w.mu.Unlock() }()
 		// 8 goroutines x 25 proxied calls at the same time; every reply carries metadata derived from its own argument
 		route := "/px/echo"
 		if sc.Codec == "p" {
